@@ -18,7 +18,8 @@ def run(idx, rep, tier):
     rep.assumptions = DOMAIN_D
     mods = MODS
     buffers.r_compact(idx, rep, modules=mods, floor=3 if mods else 8)
-    buffers.r_guardstore(idx, rep, modules=mods, floor=1 if mods else 4)
+    buffers.r_guardstore(idx, rep, modules=mods, floor=0)      # vacuity is guarded by R-BOUNDEDSTORE's floor: a removed check is a VIOLATION there
+    buffers.r_boundedstore(idx, rep, modules=mods, floor=3)
     hydro.r_forcedir(idx, rep)
     hydro.r_polyguard(idx, rep)
     hydro.r_planecross(idx, rep)
@@ -27,4 +28,5 @@ def run(idx, rep, tier):
     misc2.r_dupcond(idx, rep, [m.name for m in idx.lib_modules()], floor=3)
     misc2.r_stiffness(idx, rep)
     misc2.r_hplayout(idx, rep)
+    misc2.r_anglesort(idx, rep)
     unpack.r_unpack(idx, rep, floor=6)
